@@ -171,6 +171,26 @@ static void CloseTarget(void) {
     }
 }
 
+/* number of byte addresses in [From,To) that pass the byte lane selection (-m) */
+
+static LongWord SelectedBytes(LongWord From, LongWord To) {
+    LongWord Cnt = 0;
+
+    for (; (From < To) && (From & 3); From++) {
+        if ((From & ANDMask) == ANDEq) {
+            Cnt++;
+        }
+    }
+    Cnt += ((To - From) >> 2) * (4 / SizeDiv);
+    From += (To - From) & ~((LongWord)3);
+    for (; From < To; From++) {
+        if ((From & ANDMask) == ANDEq) {
+            Cnt++;
+        }
+    }
+    return Cnt;
+}
+
 static void ProcessFile(char const* FileName, LongWord Offset) {
     FILE*    SrcFile;
     Word     TestID;
@@ -256,7 +276,8 @@ static void ProcessFile(char const* FileName, LongWord Offset) {
                 /* in Zieldatei an passende Stelle */
 
                 if (fseek(TargFile,
-                          (((ErgStart - StartAdr) * Gran) / SizeDiv) + abs(StartHeader),
+                          SelectedBytes(StartAdr * Gran, ErgStart * Gran)
+                                  + abs(StartHeader),
                           SEEK_SET)
                     == -1) {
                     ChkIO(TargName);
